@@ -13,7 +13,7 @@ def vlib_repo():
 PKG = "storage"
 HARNESS = ["storage/zz_verif_c05_test.go", "storage/zz_verif_c05_export.go"]
 IAM_PKG = "auth/api/iam"
-IAM_HARNESS = ["auth/api/iam/zz_verif_c05_test.go", "storage/zz_verif_c05_export.go"]
+IAM_HARNESS = ["auth/api/iam/zz_verif_c05_test.go", "auth/api/iam/zz_verif_c05b_test.go", "storage/zz_verif_c05_export.go"]
 VCI_PKG = "vcr/issuer"
 VCI_HARNESS = ["vcr/issuer/zz_verif_c05_test.go", "storage/zz_verif_c05_export.go"]
 HARNESSES = [(PKG, HARNESS, "c05"), (IAM_PKG, IAM_HARNESS, "c05iam"), (VCI_PKG, VCI_HARNESS, "c05vci")]
@@ -80,9 +80,87 @@ def oracle(op, line, facts):
     return bad
 
 
+def _pres_nonce(p):
+    """the nonce validatePresentationNonce works with for one presentation (challenge, else nonce)"""
+    if p.get("fmt") == "jwt":
+        return p.get("jwt", "")
+    if p.get("fmt") == "ld":
+        if p.get("lderr"):
+            return ""
+        return p.get("challenge", "") or p.get("nonce", "")
+    return ""
+
+
+def forms_oracle(op, line, facts):
+    """direct oracle on a sequence of requests served one after the other by the real endpoints (op "forms")"""
+    bad = []
+    m = re.match(r"forms ans=(.*) live=\[(.*)\]$", line)
+    if not m:
+        return [("C05:forms:unparsable-output", line[:200])]
+    ans = m.group(1).split(";")
+    reqs = op["reqs"]
+    if len(ans) != len(reqs):
+        return [("C05:forms:unparsable-output", line[:200])]
+    where = "iam:" + op.get("backend", "?")
+    issued = {(i["kind"], i["id"]) for i in op.get("init", [])}
+    now, t = 0, []
+    for r in reqs:
+        now += r.get("dt", 0)
+        t.append(now)
+    live = set(filter(None, m.group(2).split(",")))
+    for j, (r, a) in enumerate(zip(reqs, ans)):
+        code_req = r["t"] == "token" and r.get("grant") == "authorization_code" and "code" in r
+        # every authorization code the token endpoint was shown is gone at the end, whatever the answer was
+        if code_req and ("code/" + r["code"]) in live:
+            bad.append((f"C05:code:{where}:form-code-alive-after-attempt", f"request {j} presented code {r['code']!r} (answer {a}); the code is still stored at the end"))
+        if a != "200":
+            continue
+        if code_req:
+            c = r["code"]
+            if ("code", c) not in issued:
+                bad.append((f"C05:code:{where}:form-honoured-never-issued", f"request {j}: code {c!r} was never issued"))
+            if t[j] > facts.get(TTL_FACT["code"], 0):
+                bad.append((f"C05:code:{where}:form-honoured-after-ttl", f"request {j}: code {c!r} honoured at t={t[j]}"))
+            for i in range(j):
+                q = reqs[i]
+                if q["t"] == "token" and q.get("grant") == "authorization_code" and q.get("code") == c:
+                    bad.append((f"C05:code:{where}:form-honoured-after-earlier-attempt",
+                                f"request {j} was honoured with code {c!r} after request {i} (answer {ans[i]}) had presented it"))
+        elif r["t"] == "response":
+            ns = {_pres_nonce(p) for p in r.get("vp") or []}
+            if len(ns) != 1 or "" in ns:
+                bad.append((f"C05:vpnonce:{where}:form-honoured-without-common-nonce", f"request {j}: presentations carry nonces {sorted(ns)}"))
+                continue
+            n = next(iter(ns))
+            if ("vpnonce", n) not in issued:
+                bad.append((f"C05:vpnonce:{where}:form-honoured-never-issued", f"request {j}: nonce {n!r} was never issued"))
+            if t[j] > facts.get(TTL_FACT["vpnonce"], 0):
+                bad.append((f"C05:vpnonce:{where}:form-honoured-after-ttl", f"request {j}: nonce {n!r} honoured at t={t[j]}"))
+            for i in range(j):
+                q = reqs[i]
+                # an earlier response that reached the nonce check and named n (alone: consumed; among others: burn-all)
+                if q["t"] == "response" and "state" in q and not q.get("unknownState") and q.get("vp") and n in {_pres_nonce(p) for p in q["vp"]}:
+                    bad.append((f"C05:vpnonce:{where}:form-honoured-after-earlier-attempt",
+                                f"request {j} was honoured with nonce {n!r} after request {i} (answer {ans[i]}) had named it"))
+        elif r["t"] == "token" and r.get("grant") == "vp_token-bearer":
+            ns = r.get("assertion") or []
+            ttl = facts.get(TTL_FACT["s2s"], 0)
+            if "" in ns or len(set(ns)) != len(ns):
+                bad.append((f"C05:s2s:{where}:form-honoured-with-missing-or-repeated-nonce", f"request {j}: nonces {ns}"))
+            for n in ns:
+                if ("s2s", n) in issued and t[j] < ttl:
+                    bad.append((f"C05:s2s:{where}:form-honoured-used-nonce", f"request {j}: nonce {n!r} was registered as used at t=0"))
+                for i in range(j):
+                    q = reqs[i]
+                    # an earlier envelope whose loop reached n (every nonce before n in it was fresh is not needed: accepted envelopes registered all)
+                    if q["t"] == "token" and q.get("grant") == "vp_token-bearer" and ans[i] == "200" and n in (q.get("assertion") or []) and t[j] - t[i] < ttl:
+                        bad.append((f"C05:s2s:{where}:form-two-requests-honoured", f"requests {i} and {j} were both honoured with nonce {n!r} within the nonce TTL"))
+    return bad
+
+
 def run(ctx):
     facts = ctx.facts() or {}
-    thms = ctx.build_and_audit(["NutsProofs.Props.C05"])
+    thms = ctx.build_and_audit(["NutsProofs.Props.C05", "NutsProofs.Props.C05Forms"])
     for r in REQUIRED:
         if not any(t.endswith("Props." + r) for t in thms):
             ctx.oblige("thm-present:" + r, False, "theorem missing or its module does not build")
@@ -145,7 +223,8 @@ def run(ctx):
         bad += [base + k for k in b1]
 
     # ---- direct property oracle on the implementation's own outputs
-    n_bad, seen, n_window, n_cross = 0, set(), 0, 0
+    n_bad, seen, n_window, n_cross, n_forms = 0, set(), 0, 0, 0
+    form_answers, form_kinds = Counter(), Counter()
     lw = Counter()
     kinds, sizes, backends, succ_hist = Counter(), Counter(), Counter(), Counter()
     distinct = set()
@@ -177,6 +256,19 @@ def run(ctx):
                     seen.add(sig)
                     ctx.violation(sig, f"the {op['kind']} secret was honoured a second time after hostile requests (authorization responses, token requests, request-object "
                                   f"fetches, landing page) had named every '/'-tail of and '../'-path to every session-store key: {line}", re.sub(r"[^A-Za-z0-9_.-]", "_", sig) + ".jsonl", ops[i])
+            continue
+        if op.get("op") == "forms":
+            n_forms += 1
+            for a in line.split(" live=")[0][len("forms ans="):].split(";"):
+                form_answers[a.split("|")[-1][:40]] += 1
+            for r in op["reqs"]:
+                form_kinds[r["t"] + ":" + (r.get("grant", "") if r["t"] == "token" else str(len(r.get("vp") or [])) + "vp")] += 1
+            for sig, what in forms_oracle(op, line, facts):
+                n_bad += 1
+                if sig in seen:
+                    continue
+                seen.add(sig)
+                ctx.violation(sig, f"{what}; sequence {op['scn']}: {line[:300]}", re.sub(r"[^A-Za-z0-9_.-]", "_", sig) + ".jsonl", ops[i])
             continue
         if op.get("op") != "run":
             continue
@@ -224,7 +316,7 @@ def run(ctx):
     else:
         ctx.oblige("correspondence:model=impl", True, f"{len(impl)} lines equal")
 
-    ctx.cov["evaluations"] = sum(sizes.values())
+    ctx.cov["evaluations"] = sum(sizes.values()) + sum(form_kinds.values())
     ctx.cov["distinct_nontrivial"] = interleaved
     ctx.cov["traces_validated_against_impl"] = len(impl) - len(bad)
     ctx.cov["rule"] = ("every maximal schedule (depth-first, re-executed from scratch) of 2 (quick: + one 3-thread scenario; thorough: all 3-thread "
@@ -234,6 +326,9 @@ def run(ctx):
                        "One step = one underlying Get/Set/Delete of the real store. distinct_nontrivial = runs whose schedule really interleaves two threads")
     ctx.cov["window_probes"] = n_window
     ctx.cov["hostile_response_probes"] = n_cross
+    ctx.cov["request_sequences"] = n_forms
+    ctx.oblige("forms-leg-ran", bool(ctx.replay) or n_forms >= 100, f"{n_forms} request sequences")
     ctx.cov["input_distribution"] = {"threads_per_run": dict(sorted(sizes.items())), "kinds": dict(kinds), "backends": dict(backends),
-                                     "success_count_histogram": dict(succ_hist), "distinct_runs": len(distinct)}
+                                     "success_count_histogram": dict(succ_hist), "distinct_runs": len(distinct),
+                                     "form_requests": dict(form_kinds), "form_answers": dict(form_answers)}
     ctx.cov["samples"] = [ops[0][:300] if ops else "", impl[0][:300] if impl else ""]
